@@ -8,6 +8,11 @@ Three streams:
     render_ansi pipeline on arbitrary UTF-8 text inside a worker process; every diagnostic / label
     / token span is checked against the executable span_wf predicate (in range, ordered, on
     character boundaries), rendering must succeed, nothing may panic, abort or hang;
+  * renderer on arbitrary spans (PROVED part, hypothesis of C07_render_total): Diagnostics::render_ansi on
+    every well-formed (span, label spans) of all short texts over {a, TAB, e-acute, CR, LF} and on random
+    multi-line spans of CR/LF/CRLF programs, and on every span the parser / resolver produced in the
+    monitor run, against the extracted Render.v: line, column, caret and dash counts AND the text of the
+    printed source lines; a panic on a well-formed span is a property failure;
   * gate: the shipped `naija` binary on marked programs: a text with an error-level diagnostic
     must not start the runtime (the marker must not be printed, exit status must be a failure).
 """
@@ -315,6 +320,64 @@ def gen_static_errors(rng, n):
     return out
 
 
+def spaced(text, gap):
+    """The text with `gap` between all of its pieces (every place where layout may vary)."""
+    ps = [p for p in pieces(text) if not p.isspace() and not p.startswith("#")]
+    return gap.join(ps) + gap
+
+
+def gen_static_matrix():
+    """Systematic counterpart of gen_static_errors: every built-in name as a method of every kind of
+    receiver and as a function, with every kind of first argument and 0-3 arguments; every binary and
+    unary operator on every pair of literal kinds; every kind of value as condition / index / callee.
+    Each program is otherwise clean (no lexical or syntactic diagnostic), so the static checker runs and
+    its type / arity / name diagnostics are produced; each comes in three layouts (canonical, one blank
+    in every gap, CRLF in every gap) so that spans computed from several nodes are exercised with
+    material between the nodes."""
+    names = builtin_names()
+    prelude = 'make s get "t"\nmake a get [1, 2]\nmake n get 4\nmake b get true\nmake cmd get command("true")\nmake res get cmd.run()\n'
+    recvs = ['"t"', "s", "[1, 2]", "a", "5", "n", "b", "null", "cmd", "res", "a[0]"]
+    kinds = ['"x"', "7", "true", "null", "[1]", "q"]           # q: undeclared outside g, dynamic inside
+    argp = [[]] + [[k] for k in kinds] + [['"x"', "7"], ["7", '"x"'], ["7", "7", "7"]]
+    progs = []
+    for m in names:
+        for ap in argp:
+            args = ", ".join(ap)
+            for r in recvs:
+                progs.append(prelude + "shout(%s.%s(%s))\n" % (r, m, args))
+            progs.append(prelude + "do g(p, q) start\n  shout(p.%s(%s))\n  return p\nend\n" % (m, args))
+            progs.append(prelude + "shout(%s(%s))\n" % (m, args))
+    ops = ["add", "minus", "times", "divide", "mod", "and", "or", "na", "pass", "small pass"]
+    lit = ['"x"', "7", "true", "null", "[1]", "s", "a", "n"]
+    for o in ops:
+        for x in lit:
+            for y in lit:
+                progs.append(prelude + "make v get %s %s %s\nshout(v)\n" % (x, o, y))
+    for x in lit:
+        progs.append(prelude + "shout(minus %s)\nshout(not %s)\n" % (x, x))
+        progs.append(prelude + "if to say (%s) start\n  shout(1)\nend\nif not so start\n  shout(2)\nend\n" % x)
+        progs.append(prelude + "jasi (%s) start\n  comot\nend\n" % x)
+        progs.append(prelude + "shout(a[%s])\na[%s] get 1\nshout(%s[0])\n" % (x, x, x))
+        progs.append(prelude + "shout(%s())\nshout(s(%s))\n" % (x if x[0].isalpha() else "zz", x))
+    # every other static rule once: names, redeclaration, arity of user functions, misplaced control flow,
+    # unreachable / unused code (warnings), nested functions and captures
+    misc = ["make s get 1\n", "shout(zz)\n", "zz get 1\n", "zz[0] get 1\n", "comot\n", "next\n", "return 1\n",
+            "do f(x, x) start\n  return x\nend\n", "do f() start\n  return 1\nend\ndo f() start\n  return 2\nend\n",
+            "do f(x) start\n  return x\nend\nshout(f())\nshout(f(1, 2))\n", "do f() start\n  return 1\n  shout(2)\nend\nshout(f())\n",
+            "do f() start\n  comot\nend\n", "jasi (b) start\n  do h() start\n    next\n  end\n  comot\nend\n",
+            "do unused() start\n  make u get 1\nend\n", "make w get 1\nw get 2\n", "do f() start\n  make s get 2\n  return s\nend\nshout(f())\n",
+            "do f() start\n  do k() start\n    return n add zz\n  end\n  return k()\nend\nshout(f())\n",
+            "if to say (b) start\n  make n get 1\n  shout(n)\nend\n", "start\n  make a get 1\n  shout(a)\nend\nshout(a.nope())\n",
+            "do make() start end\n", "shout(f)\ndo f() start end\n", "make r get g2()\ndo g2() start\n  return r\nend\n"]
+    progs += [prelude + m for m in misc]
+    out = []
+    for t in progs:
+        out.append(t)
+        out.append(spaced(t, " "))
+        out.append(spaced(t, "\r\n"))
+    return out
+
+
 def gen_relayouts_of(rng, texts, n):
     """Non-canonical layouts (incl. CR / CRLF line ends) of texts from the error-producing streams."""
     out = []
@@ -418,6 +481,7 @@ def gen_cases(env):
         ("token-mutation", tokmut),
         ("semantic-mutation", semmut),
         ("static-errors", static),
+        ("static-matrix", gen_static_matrix()),
         ("byte-noise", noise),
         ("relayout-of-errors", gen_relayouts_of(rng, adjacency + tokmut + semmut + noise, 1500 if quick else 40000)),
         ("truncation", gen_truncations(progs, 6000 if quick else 10 ** 9)),
@@ -963,7 +1027,9 @@ def correspond(env, searching=False, model=True):
         "distinct_nontrivial": len(nontrivial),
         "rule": "distinct source texts (hash of the bytes) on which the implementation passed the oracle and the lexer produced at least one "
                 "token or diagnostic; streams: corpus, multi-byte adjacency to every token kind, token-level mutations, byte noise decoded with "
-                "replacement, syntax-preserving semantic mutations, every prefix of sample programs, CR/LF/CRLF/tab/FF layouts, many-locals nested functions, bounded-exhaustive strings",
+                "replacement, syntax-preserving semantic mutations, every prefix of sample programs, CR/LF/CRLF/tab/FF layouts, many-locals nested functions, bounded-exhaustive strings, "
+                "every error shape in front of every line terminator with constructs still open, a built-in x receiver x argument-kind x arity matrix of statically wrong programs in three layouts, "
+                "random statically wrong programs and CR/CRLF relayouts of the error streams; plus renderer runs on bounded-exhaustive well-formed spans (counted in evaluations, not in non-trivial)",
         "samples": samples,
         "failures": failures,
         "disagreements": disagreements,
